@@ -13,17 +13,17 @@ SMT = "MIR (nightly -Zunpretty=mir) of the real functions translated to SMT-LIB 
 LOCK = "lock-acquisition event paths of every engine entry point extracted from the crate's MIR; z3 searches all two-thread interleavings under writer-preferring RwLock semantics for a state where no thread can move"
 
 CLAIMS = {
-    "C01": dict(tech=KANI, ref="§6 C01", text="Component-level bounded model checking: the per-key window arithmetic is proved as one inductive step from an arbitrary state (covers histories of any length), table/database roll-back glue, both reorg-depth guards, the monotone recorded maximum and the stamping of writes with the next height are each decided for all symbolic inputs inside stated bounds. Right level because the property quantifies over histories: an inductive step over a symbolic pre-state reaches what no finite set of test histories does; revm execution and the RPC layer are outside the claim.",
+    "C01": dict(tech=KANI, ref="§6 C01", text="Component-level bounded model checking: the per-key window arithmetic is proved as one inductive step from an arbitrary state (covers histories of any length); table roll-back glue (keys only persisted / only cached / created or deleted later), block-table roll-back, height derivation and the engine-level acceptance guard are each decided for all symbolic inputs inside stated bounds. Right level because the property quantifies over histories: an inductive step over a symbolic pre-state reaches what no finite set of test histories does. NOT decided (measured out of reach, DESIGN.md 11.2): that every table of the database is rolled back, the database-level depth guard, the recorded maximum; revm execution and the RPC layer.",
                 note="Trusted: Kani/CBMC, the container/RocksDB/lock models, the paper composition argument of DESIGN.md §4; EVM execution, JSON-RPC answers and contract code are outside."),
     "C02": dict(tech=KANI, ref="§6 C02", text="The iteration order of every hash map is a symbolic variable: range scans and full scans are shown to return the same, key-sorted list for every order, so list-valued answers built on them cannot differ between replicas. Narrow claim (scan order + pinned derivation constants); revm, hashes and golden digests are outside.",
                 note="Trusted: HashMap model's order nondeterminism (forwards/backwards/rotated insertion sequence = all permutations of <=3 keys)."),
-    "C03": dict(tech=KANI, ref="§6 C03", text="Reads merge cache over disk (point, range, full scan, block tables), commit leaves every read answer unchanged and empties every cache, clear drops every cache and the cached height: decided for all symbolic rows inside the bounds, one table at a time and for each of the 16 tables of the database.",
+    "C03": dict(tech=KANI, ref="§6 C03", text="Reads merge cache over disk (point, range, full scan, block tables), a table commit writes exactly the rows that leave every read answer unchanged and empties the cache, commit is refused mid-block: decided for all symbolic rows inside the bounds, one table at a time. NOT decided: that commit / clear cover every table of the database (DESIGN.md 11.2).",
                 note="Trusted: RocksDB model (reopen = new object over the same rows); process restart with real RocksDB is outside."),
-    "C04": dict(tech=KANI, ref="§6 C04", text="The crash point is a symbolic write budget in the RocksDB model: after a commit cut at ANY write the disk never holds a new latest value with an old history, heights are written before state, and the cut states roll back to the value as of the durable height.",
+    "C04": dict(tech=KANI, ref="§6 C04", text="The crash point is a symbolic write budget in the RocksDB model: after a table commit cut at ANY write the disk never holds a new latest value with an old history, a cut block-table commit leaves a prefix, and the cut states roll back correctly (a stale latest row is rewritten, rows above a hole are deleted). NOT decided: heights-before-state order over the whole database (DESIGN.md 11.2).",
                 note="Trusted: single RocksDB writes are atomic and durable when they return Ok (model); torn writes and revm-internal crashes are outside."),
-    "C05": dict(tech=KANI, ref="§6 C05", text="The protocol guards (waiting-tx guard of commit/reorg/mine, validate_next_tx, block-exists guard, exactly-one-encoding) are compared with reference predicates written from the property text for all symbolic arguments and engine states, and refusals are shown to happen before any lock write or storage write.",
+    "C05": dict(tech=KANI, ref="§6 C05", text="The waiting-tx guard of commit / reorg / mine, the engine-level reorg acceptance and the exactly-one-encoding rule are compared with reference predicates written from the property text for all symbolic arguments and engine states, and refusals are shown to happen before any lock write or storage write. NOT decided (did not finish): validate_next_tx and the block-exists guard.",
                 note="Errors raised after partial EVM execution and RPC parameter decoding are outside."),
-    "C09": dict(tech=KANI, ref="§6 C09", text="Absence of panics / unbounded loops for all inputs up to stated sizes in the request-reachable pure code CBMC can carry: payload decoder after base64, hex/field parsers, lock-script builder, block-number parser, mine loop bound.",
+    "C09": dict(tech=KANI, ref="§6 C09", text="Absence of panics for all inputs up to stated sizes in the request-reachable pure code CBMC can carry: payload decoder after base64 (empty payload, raw and unknown prefixes; zstd and nada branches in the thorough tier), lock-script builder, generated block hash; mine refused mid-block.",
                 note="revm on arbitrary bytecode, Bitcoin-RPC precompiles, jsonrpsee typing are outside; base64/zstd/nada are stubbed or trusted as listed in the evidence."),
     "C11": dict(tech=LOCK, ref="§6 C11", text="Bounded model checking of lock schedules: the lock events of each engine entry point come from the compiled MIR (regenerated every run); the solver decides, for every pair of entry points, whether some interleaving reaches a state in which every unfinished thread is blocked.",
                 note="Bounds: 2 threads, paths <= 12 lock events, loops <= 2 iterations; tokio scheduling, Notify and non-SharedData locks are outside."),
@@ -35,7 +35,7 @@ CLAIMS = {
                 note="base64, zstd and nada themselves are stubbed/trusted; payloads near 1 MiB are outside."),
     "C16": dict(tech=SMT, ref="§6 C16", text="The allowance arithmetic of the real compiled functions: get_gas_limit(n) = min(n*12000, 2^64-1), inverse never increases the allowance, monotone - for all 64-bit n.",
                 note="Receipt gas <= allowance, out-of-gas behaviour and estimate sufficiency need revm and are outside."),
-    "C18": dict(tech=KANI, ref="§6 C18", text="Range guard and defaults of get_logs against a reference predicate, exactness and key order of the (block,index) scan it is built on for every hash-map order (committed or not), and key order = chain order.",
+    "C18": dict(tech=KANI, ref="§6 C18", text="Exactness (both range boundaries, cache over disk incl. uncommitted deletions) and key order of the (block,index) scan eth_getLogs is built on, for every hash-map order, committed or not; key order = chain order (MIR->SMT). NOT decided: per-log filter semantics and the range guard (DESIGN.md 11.2).",
                 note="JSON filter parsing and more than the stated number of receipts/logs/topics are outside."),
 }
 
